@@ -91,7 +91,7 @@ def run_product(ctx):
     return out
 
 
-def apply(ctx, res, rule_prefixes, strict_only=True, lenient_only=False, pid=None, relative=False, key_filter=None, rename=None):
+def apply(ctx, res, rule_prefixes, strict_only=True, lenient_only=False, pid=None, relative=False, key_filter=None, rename=None, finding_filter=None):
     """Copy the product findings whose rule starts with one of the prefixes into the result.
     relative=True (C12): a lenient valuation is judged against the strict one — a deviation from the reference that the
     strict parser shows in exactly the same way is not a defect of the *extension* (it belongs to C01/C02/C05/C07);
@@ -122,6 +122,11 @@ def apply(ctx, res, rule_prefixes, strict_only=True, lenient_only=False, pid=Non
             if any(f["rule"].startswith(p) for p in rule_prefixes):
                 if key_filter is not None and not f["rule"].startswith("E2.") and not key_filter(f["key"], f.get("witness")):
                     continue
+                if finding_filter is not None and not f["rule"].startswith("E2."):
+                    why = finding_filter(f, strict)
+                    if why:
+                        res.infos.append("[%s] not this property's business (%s): %s/%s" % (tag, why, f["rule"], f["key"]))
+                        continue
                 if relative and (f["rule"], f["key"]) in strict_keys:
                     res.infos.append("[%s] deviation shared with the strict parser, not attributed to C12: %s/%s" % (tag, f["rule"], f["key"]))
                     continue
